@@ -6,13 +6,18 @@ open Lean
 namespace Gnpy.Drv.C08
 open Gnpy.Chain
 
+def getLump (j : Json) : R (Float × Float) := do
+  match ← getArr j with
+  | [a, b] => return (← getF a, ← getF b)
+  | _ => throw "lumped loss pair expected"
+
 def getElem (j : Json) : R (Elem Float) := do
   let kind ← fStr j "kind"
   let uid ← fStr j "uid"
   match kind with
   | "fiber" =>
     return .fiber uid { length := ← fF j "length", lossCoef := ← fF j "loss_coef", conIn := ← fOpt getF j "con_in",
-                        conOut := ← fOpt getF j "con_out", attIn := ← fF j "att_in", lumped := ← fF j "lumped",
+                        conOut := ← fOpt getF j "con_out", attIn := ← fF j "att_in", lumps := ← fList getLump j "lumps",
                         raman := ← fBool j "raman", ramanGain := ← fOpt getF j "raman_gain", dsl := ← fOpt getF j "dsl" }
   | "fused" => return .fused uid (← fF j "loss")
   | "edfa" =>
@@ -23,7 +28,7 @@ def getElem (j : Json) : R (Elem Float) := do
 def jElem : Elem Float → Json
   | .fiber u p => jObj [("kind", jStr "fiber"), ("uid", jStr u), ("length", jF p.length), ("loss_coef", jF p.lossCoef),
                         ("con_in", jOpt jF p.conIn), ("con_out", jOpt jF p.conOut), ("att_in", jF p.attIn),
-                        ("lumped", jF p.lumped), ("raman", jBool p.raman), ("raman_gain", jOpt jF p.ramanGain),
+                        ("lumps", jList (fun l => Json.arr #[jF l.1, jF l.2]) p.lumps), ("lumped", jF p.lumped), ("raman", jBool p.raman), ("raman_gain", jOpt jF p.ramanGain),
                         ("dsl", jOpt jF p.dsl), ("loss", jF p.loss)]
   | .fused u l => jObj [("kind", jStr "fused"), ("uid", jStr u), ("loss", jF l)]
   | .edfa u p => jObj [("kind", jStr "edfa"), ("uid", jStr u), ("variety", jStr p.variety), ("gain", jOpt jF p.gain),
@@ -63,6 +68,10 @@ def design (j : Json) : R Json := do
     | .fiber _ p => calcRaises c.fuel p.length c.hi c.target
     | _ => false)
   if raisesSplit then return jObj [("error", jStr "ZeroDivisionError")]
+  let raisesLump := ch.line.any (fun e => match e with
+    | .fiber _ p => splitRaises c p
+    | _ => false)
+  if raisesLump then return jObj [("error", jStr "NetworkTopologyError")]
   let missing := addMissingLine c ch
   let withConn := addConn (← fF j "con_in") (← fF j "con_out") (← fF j "eol") missing
   let rs := runs withConn
@@ -72,6 +81,19 @@ def design (j : Json) : R Json := do
   return jObj [("missing", jList jElem missing), ("line", jList jElem padded),
                ("runs", jList (fun r => jList (fun e => jStr e.uid) r) (runs padded))]
 
-def handlers : List (String × Handler) := [("c08.calc", calcH), ("c08.design", design)]
+/-- the graph (edge list over uids) of the whole topology after completion: `toGraph` of the completed chains; chains
+without line elements (transceiver <-> ROADM) are chains too -/
+def graph (j : Json) : R Json := do
+  let chs ← fList getChain j "chains"
+  let c ← getSplit j
+  let dIn ← fF j "con_in"
+  let dOut ← fF j "con_out"
+  let eol ← fF j "eol"
+  let padding ← fF j "padding"
+  let done := chs.map (completeChain c dIn dOut eol padding)
+  return jObj [("edges", jList (fun e => Json.arr #[jStr e.1, jStr e.2]) (toGraph done)),
+               ("pairs", jList (fun e => Json.arr #[jStr e.1, jStr e.2]) (endpointPairs done))]
+
+def handlers : List (String × Handler) := [("c08.calc", calcH), ("c08.design", design), ("c08.graph", graph)]
 
 end Gnpy.Drv.C08
